@@ -163,10 +163,12 @@ def run(out, replay_path=None):
         # something is wrong but not reproduced yet: look for replayable histories (k-induction from Inv states,
         # deeper BMC), each phase under a wall-clock budget
         from . import executor as _ex
-        for start, K, F in (('inv', 3, 1), ('init', 3, 1)):
+        # the last phase: 4 operations from an Inv state with at most one flush among them (a failed flush followed by
+        # three emits is the shortest history for some desynchronisations)
+        for start, K, F, only in (('inv', 3, 1, None), ('init', 3, 1, None), ('inv', 4, 1, lambda sq: len(sq) == 4 and sq.count('f') <= 1)):
             _ex.DEADLINE = time.time() + 240
             try:
-                res = wm.bmc_parallel(prog, K, F, timeout_ms=timeout_ms, seed=out.seed, start=start)
+                res = wm.bmc_parallel(prog, K, F, timeout_ms=timeout_ms, seed=out.seed, start=start, only=only)
             finally:
                 _ex.DEADLINE = None
             hh, oo, ss, tt = _merge_jobs(res, tot, fns, stubs, backend)
@@ -221,6 +223,13 @@ def run(out, replay_path=None):
         out.evidence['coverage']['obligations'] += deleg['obligations']
         out.evidence['coverage']['discharged'] += deleg['obligations'] - len(deleg['findings'])
         if deleg['findings']:
+            res = replay.run_scenarios([{'kind': 'flush-delegation'}])[0]
+            out.evidence['coverage']['traces_validated_against_impl'] += 1
+            hit = [v for v in res.get('violations', []) if v['prop'] == pid]
+            if hit:
+                out.violations.append({'key': 'writer:%s' % hit[0]['clause'], 'what': '%s: %s (solver side: %s)' % (hit[0]['clause'], hit[0]['detail'], deleg['findings'][0][:300]),
+                                       'scenario': {'kind': 'flush-delegation'}, 'native': hit})
+                return
             out.inconclusive.append('flush delegation: ' + deleg['findings'][0])
     if confirmed:
         seen = set()
